@@ -60,8 +60,8 @@ func TestC15(t *testing.T) {
 		"asynchronous variants run inside testing/synctest bubbles; synctest.Wait() is the quiescence point at which callbacks are compared",
 		"a sequence that makes no progress for 120 s of wall clock is reported as a hang (single-goroutine work that normally takes microseconds)")
 
-	L := ev.Pick(4, 6)
-	LAsync := ev.Pick(4, 5)
+	L := ev.Pick(5, 7)
+	LAsync := ev.Pick(4, 6)
 	nRandom := ev.Pick(12, 400) // per capacity, per policy
 
 	var variants []variant
